@@ -1,15 +1,17 @@
-SPECIFICATION Spec
+INIT MCInit
+NEXT MCNext
 CONSTANTS
   Themes = {"foo", "pango", "sep", "meta1", "meta2"}
   ML = 2
   MW = 2
-  EML = 2
-  EMW = 2
+  EML = 0
+  EMW = 0
   LaML = 0
+  Extras = FALSE
   Variant = "asis"
   Gran = "case"
-  Cases <- MC_Cases
-  LaCases <- MC_LaCases
+  Cases <- MC_None
+  LaCases <- MC_None
 CHECK_DEADLOCK FALSE
 ALIAS Alias
 INVARIANT TypeOK
